@@ -270,8 +270,16 @@ pub fn check(rec: &RunRecord) -> Vec<Violation> {
     // Hitting the step budget is a harness limit (tiny channels, long bursts), not a violation:
     // such runs are counted and only the step-by-step invariants are evaluated for them.
 
+    // Lanes of the scripted agent that failed (lane name -> step of the failure).
+    let failed_lanes: HashMap<&'static str, u64> = rec
+        .truth
+        .first()
+        .map(|t| t.iter().filter_map(|(s, e)| if let TruthEv::LaneFailed { item } = e { Some((*item, *s)) } else { None }).collect())
+        .unwrap_or_default();
+
     for ((peer, lane), frames) in by_pl.iter() {
         let info = peer_info(rec, *peer);
+        let lane_failed = failed_lanes.get(lane.as_str()).copied();
         let reqs = requests(rec, *peer, lane);
         let known = KNOWN_LANES.contains(&lane.as_str());
         // A peer that itself asked to unlink races with its own earlier requests (an unlink landing in
@@ -343,7 +351,8 @@ pub fn check(rec: &RunRecord) -> Vec<Violation> {
                     if !linked {
                         out.push(Violation::new("C04", "C04.unlinked_outside_link", "", format!("peer {peer} lane {lane}: unlinked {:?} at step {} outside a link", body.as_ref().map(|b| body_text(b)), f.step)));
                     }
-                    if matches!(body, Some(b) if b.as_slice() == b"@laneNotFound") {
+                    // (after a lane has failed it no longer exists: lane-not-found is then the right answer)
+                    if matches!(body, Some(b) if b.as_slice() == b"@laneNotFound") && lane_failed.is_none() {
                         out.push(Violation::new("C04", "C04.lane_not_found_for_known_lane", "", format!("peer {peer} lane {lane}")));
                     }
                     linked = false;
@@ -357,6 +366,41 @@ pub fn check(rec: &RunRecord) -> Vec<Violation> {
             if !reader_ended_early {
                 out.push(Violation::new("C04", "C04.stop_without_unlinked", "", format!("peer {peer} lane {lane}: link still open after the agent stopped cleanly")));
             }
+        }
+
+        // When a lane fails every open link to it is closed with unlinked.
+        // (Only an undecodable frame is a *failure* for the runtime; a lane that merely closes its
+        // channel is treated as having ended and its links are closed when the agent stops.)
+        let garbage = matches!(rec.scenario.fake.as_ref().map(|f| &f.mode), Some(super::fake::FailMode::Garbage));
+        if let (Some(fs), Some(qs), true, true) = (lane_failed, q, clean_end, garbage) {
+            // Only links that were open when the lane failed are covered by the statement: a link
+            // requested after the failure is out of scope (the runtime accepts it; recorded as an observation).
+            let requested_after = reqs.iter().any(|s| matches!(s.op, Op::Link { .. } | Op::Sync { .. }) && s.end >= fs);
+            // ... and the link must definitely have been open at that moment: the remote had already
+            // read the `linked` of the session that is still open.
+            let open_since = {
+                let mut since = None;
+                for f in frames.iter().filter(|f| f.step <= qs) {
+                    match f.kind {
+                        FrameKind::Linked => {
+                            if since.is_none() {
+                                since = Some(f.step);
+                            }
+                        }
+                        FrameKind::Unlinked(_) => since = None,
+                        _ => {}
+                    }
+                }
+                since
+            };
+            let requested_after = requested_after || open_since.map(|s| s >= fs).unwrap_or(true);
+            if fs <= qs && !requested_after && info.closed_read.is_none() && info.closed_write.is_none() && !info.write_failed && in_link_at(frames, qs) {
+                out.push(Violation::new("C04", "C04.lane_failure_link_left_open", "", format!("peer {peer} lane {lane}: the lane failed at step {fs} but the link is still open at quiescence (step {qs})")));
+            }
+        }
+        if lane_failed.is_some() {
+            // Convergence / snapshot clauses do not apply to a lane that failed.
+            continue;
         }
 
         let (sess, _outside) = sessions(frames);
@@ -1128,6 +1172,13 @@ pub fn check_reporting(rec: &RunRecord) -> Vec<Violation> {
         for lane in KNOWN_LANES.iter() {
             let lo = sure.get(*lane).copied().unwrap_or(0);
             let hi = lo + maybe.get(*lane).copied().unwrap_or(0);
+            // A lane that has failed is gone (with its reporter); the runtime still accepts link
+            // requests for it, which is outside the statement: such links may or may not be counted.
+            let failed = rec.truth.first().map(|t| t.iter().any(|(s, e)| *s <= step && matches!(e, TruthEv::LaneFailed { item } if item == lane))).unwrap_or(false);
+            if failed {
+                total_hi += hi;
+                continue;
+            }
             total_lo += lo;
             total_hi += hi;
             if let Some(r) = rec.hist.reports.iter().find(|r| r.step == step && r.lane == *lane) {
@@ -1147,7 +1198,8 @@ pub fn check_reporting(rec: &RunRecord) -> Vec<Violation> {
             // The aggregate must equal the sum of the lanes reported at the same instant.
             let sum: u64 = rec.hist.reports.iter().filter(|x| x.step == step && x.lane != "<aggregate>").map(|x| x.link_count).sum();
             let lanes_reported = rec.hist.reports.iter().filter(|x| x.step == step && x.lane != "<aggregate>").count();
-            if lanes_reported == KNOWN_LANES.len() && sum != r.link_count {
+            let any_failed = rec.truth.first().map(|t| t.iter().any(|(_, e)| matches!(e, TruthEv::LaneFailed { .. }))).unwrap_or(false);
+            if lanes_reported == KNOWN_LANES.len() && sum != r.link_count && !any_failed {
                 out.push(Violation::new("C20", "C20.aggregate_vs_lanes", "", format!("agent reports {} uplinks at step {step} but its lanes report {sum} in total", r.link_count)));
             }
         }
